@@ -321,6 +321,15 @@ func genMeta(r *Rand, tier string, emit func(string)) {
 	for i := 0; i < 300; i++ {
 		emit("mdec in=" + hx(r.Bytes(r.Intn(40))))
 	}
+	// decoder-directed synthesis: blocks built from the decoder's side for every
+	// value of every header field (incl. the ones the encoder never emits)
+	nSyn := 6000
+	if thorough {
+		nSyn = 120000
+	}
+	for i := 0; i < nSyn; i++ {
+		emit("mdec in=" + hx(synthMetaBlocks(r, i)))
+	}
 	// all strings of up to 2 bytes
 	emit("mdec in=-")
 	for a := 0; a < 256; a++ {
@@ -331,6 +340,150 @@ func genMeta(r *Rand, tier string, emit func(string)) {
 			emit(fmt.Sprintf("mdec in=%04x", v))
 		}
 	}
+}
+
+// synthMetaBlock writes one meta block the way decodeBlock parses it: every
+// header field is chosen freely (hclen over all 8 even values incl. 0, pads,
+// final bits), the symbol section is made to carry exactly 2^huffLen ones with
+// the terminator set, and each consistency rule is broken with small probability.
+func synthMetaBlock(r *Rand, w *bitW, k int) {
+	pert := func() bool { return r.Intn(40) == 0 }
+	hclenField := uint64(2 * (k % 8)) // numHCLen = 4,6,...,18
+	finalStream := uint64(r.Intn(2))
+	start := w.nbit
+	// symbols first (need their length to choose the pads)
+	numHCLen := 4 + hclenField
+	huffLen := uint(8 - (numHCLen-4)/2)
+	huffRange := 1 << huffLen
+	bits := make([]uint, 257)
+	bits[256] = 1
+	ones := 1
+	if pert() {
+		bits[256], ones = 0, 0
+	}
+	// flags byte: bit1 finalMeta, bit2 invert, bits 3..7 size
+	if finalStream == 1 && !pert() || finalStream == 0 && r.Bool() {
+		bits[1] = 1
+		ones++
+	}
+	want := huffRange
+	if pert() {
+		want += r.Intn(3) - 1
+	}
+	for tries := 0; ones < want && tries < 100000; tries++ {
+		j := 2 + r.Intn(254)
+		if r.Intn(3) == 0 && j+8 < 256 { // clustered ones
+			for q := j; q < j+8 && ones < want; q++ {
+				if bits[q] == 0 {
+					bits[q] = 1
+					ones++
+				}
+			}
+		} else if bits[j] == 0 {
+			bits[j] = 1
+			ones++
+		}
+	}
+	var sw bitW
+	last := uint(0)
+	for idx := 1; idx < 257; {
+		run := 1
+		for idx+run < 257 && bits[idx+run] == bits[idx] {
+			run++
+		}
+		b := bits[idx]
+		switch {
+		case b == 0 && run >= 11 && r.Intn(8) != 0:
+			c := min(run, 138)
+			if r.Intn(4) == 0 {
+				c = 11 + r.Intn(c-10)
+			}
+			sw.bits(7, 3) // symRepZero 111
+			sw.bits(uint64(c-11), 7)
+			idx += c
+			last = 0
+		case b == last && run >= 3 && r.Intn(4) != 0:
+			c := min(run, 6)
+			sw.bit(1) // symRepLast 110
+			sw.bit(1)
+			sw.bit(0)
+			sw.bits(uint64(c-3), 2)
+			idx += c
+		case b == 0:
+			sw.bit(0)
+			idx++
+			last = 0
+		default:
+			sw.bit(1) // symOne 10
+			sw.bit(0)
+			idx++
+			last = 1
+		}
+	}
+	hdrBits := uint(32) + 3*uint(numHCLen-1-5+1) + 1
+	if numHCLen < 6 {
+		hdrBits = 32 + 3 + 1
+	}
+	total := hdrBits + sw.nbit + 1 + huffLen
+	pads := (8 - total%8) % 8
+	if pert() {
+		pads = uint(r.Intn(8))
+	}
+	magic := uint64(0x05860004) | finalStream | uint64(pads)<<3 | hclenField<<13
+	w.bits(magic, 32)
+	for i := uint64(5); i+1 < numHCLen; i++ {
+		if pert() {
+			w.bits(uint64(r.Intn(8)), 3)
+		} else {
+			w.bits(0, 3)
+		}
+	}
+	if pert() {
+		w.bits(uint64(r.Intn(8)), 3)
+	} else {
+		w.bits(2, 3)
+	}
+	if pert() {
+		w.bit(1)
+	} else {
+		w.bit(0)
+	}
+	for i := uint(0); i < sw.nbit; i++ {
+		w.bit(uint(sw.buf[i/8]>>(i%8)) & 1)
+	}
+	if pert() {
+		w.bits(uint64(r.Intn(1<<pads)), pads)
+	} else {
+		w.bits(0, pads)
+	}
+	if pert() {
+		w.bit(1)
+	} else {
+		w.bit(0)
+	}
+	eob := uint64(huffRange - 1)
+	if pert() {
+		eob = uint64(r.Intn(huffRange))
+	}
+	w.bits(eob, huffLen)
+	_ = start
+	w.align()
+}
+
+func synthMetaBlocks(r *Rand, k int) []byte {
+	var w bitW
+	n := 1
+	if r.Intn(5) == 0 {
+		n = 1 + r.Intn(3)
+	}
+	for i := 0; i < n; i++ {
+		synthMetaBlock(r, &w, k+i*3)
+	}
+	b := w.buf
+	if r.Intn(12) == 0 {
+		b = append(b, r.Bytes(r.Intn(4))...)
+	}
+	return b
 }
 
 func init() {
